@@ -374,11 +374,13 @@ Lemma read_list_inv n : forall r xs r', wf_bytes r -> read_list k dec n r = Ok (
   forall cont, mask_chunks k mask n cont r = concat (map enc xs) ++ cont r'.
 Proof.
   induction n as [|n IH]; intros r xs r' W; cbn [read_list].
-  - intros H; inversion H; subst. repeat split; auto.
-  - inv_take.
+  - intros H; injection H as <- <-. repeat split; auto.
+  - destruct (takeP k r) as [[a r0]| |] eqn:Et; cbn [bind]; try discriminate.
+    pose proof (takeP_wf _ _ _ _ W Et) as [Wa W0].
+    apply takeP_inv in Et as (-> & Ha).
     destruct (dec a) as [[x rx]| |] eqn:Ed; cbn [bind]; try discriminate.
     destruct (read_list k dec n r0) as [[xs' r'']| |] eqn:Er; cbn [bind]; try discriminate.
-    intros H; inversion H; subst; clear H.
+    intros H; injection H as <- <-.
     destruct (enc_dec _ _ _ Wa Ed) as (Em & Wx & Wrx).
     assert (rx = []) as ->.
     { apply (f_equal (@length _)) in Em. rewrite app_length, enc_len, mask_len in Em.
@@ -421,16 +423,34 @@ Proof.
 Qed.
 End ReadList.
 
+Lemma read_list_length {A} k (dec : bytes -> res (A * bytes)) n : forall r xs r', read_list k dec n r = Ok (xs, r') ->
+  length r = (n * k + length r')%nat.
+Proof.
+  induction n as [|n IH]; intros r xs r'; cbn [read_list].
+  - intros H; injection H as <- <-. lia.
+  - destruct (takeP k r) as [[a r0]| |] eqn:Et; cbn [bind]; try discriminate.
+    destruct (dec a) as [[x rx]| |]; cbn [bind]; try discriminate.
+    destruct (read_list k dec n r0) as [[xs' r'']| |] eqn:Er; cbn [bind]; try discriminate.
+    intros H; injection H as <- <-. apply takeP_rest_length in Et. apply IH in Er. lia.
+Qed.
+
+
 Definition read_infos_enc := read_list_enc info_len info_decode info_encode wf_info
   info_encode_length info_dec_enc.
 Definition read_hops_enc := read_list_enc hop_len hop_decode hop_encode wf_hop
   hop_encode_length hop_dec_enc.
 Definition read_infos_inv := read_list_inv info_len info_decode info_encode wf_info mask_info
-  info_encode_length mask_info_length info_enc_dec.
+  info_encode_length mask_info_length info_dec_enc info_enc_dec info_no_panic info_err_iff.
 Definition read_hops_inv := read_list_inv hop_len hop_decode hop_encode wf_hop mask_hop
-  hop_encode_length mask_hop_length hop_enc_dec.
-Definition read_infos_no_panic := read_list_no_panic info_len info_decode info_no_panic.
-Definition read_hops_no_panic := read_list_no_panic hop_len hop_decode hop_no_panic.
+  hop_encode_length mask_hop_length hop_dec_enc hop_enc_dec hop_no_panic hop_err_iff.
+Definition read_infos_no_panic := read_list_no_panic info_len info_decode info_encode wf_info mask_info
+  info_encode_length mask_info_length info_dec_enc info_enc_dec info_no_panic info_err_iff.
+Definition read_hops_no_panic := read_list_no_panic hop_len hop_decode hop_encode wf_hop mask_hop
+  hop_encode_length mask_hop_length hop_dec_enc hop_enc_dec hop_no_panic hop_err_iff.
+Definition read_infos_not_err := read_list_not_err info_len info_decode info_encode wf_info mask_info
+  info_encode_length mask_info_length info_dec_enc info_enc_dec info_no_panic info_err_iff.
+Definition read_hops_not_err := read_list_not_err hop_len hop_decode hop_encode wf_hop mask_hop
+  hop_encode_length mask_hop_length hop_dec_enc hop_enc_dec hop_no_panic hop_err_iff.
 
 (** ------------------------------------------------------------ scion.Decoded *)
 Lemma concat_length_const {A} (f : A -> bytes) k xs :
@@ -460,5 +480,353 @@ Proof.
   intros W. destruct (dec_encode_ok d W) as [E L]. destruct W as (Wm & Hb & Li & Lh & Wi & Wh).
   eexists. split; [exact E|].
   unfold dec_decode, base_decode.
-  rewrite ltb_false_app.
-Abort.
+  rewrite <- !app_assoc. rewrite meta_dec_enc by exact Wm. cbn [bind]. rewrite Hb. cbn [bind].
+  rewrite ltb_false by (rewrite !app_length in *; lia).
+  rewrite <- Li. rewrite read_infos_enc by exact Wi. cbn [bind].
+  rewrite <- Lh. rewrite read_hops_enc by exact Wh. cbn [bind].
+  destruct d as [b is hs]. reflexivity.
+Qed.
+
+Lemma base_decode_rest bs b r : wf_bytes bs -> base_decode bs = Ok (b, r) ->
+  r = skipn meta_len bs /\ wf_bytes r /\ length bs = (meta_len + length r)%nat /\
+  meta_encode (b_meta b) ++ r = mask_meta bs /\ wf_meta (b_meta b).
+Proof.
+  intros W E. destruct (base_decode_inv _ _ _ W E) as [Em Hb].
+  destruct (meta_enc_dec _ _ _ W Em) as (Emask & Wm & Wr0 & Hr0).
+  pose proof (meta_decode_length _ _ _ Em). auto.
+Qed.
+
+Lemma dec_enc_dec bs d rest : wf_bytes bs -> dec_decode bs = Ok (d, rest) ->
+  exists e, dec_encode d = Ok e /\ e ++ rest = mask_dec bs /\ wf_dec d /\ wf_bytes rest /\
+            length bs = (base_len (dp_base d) + length rest)%nat.
+Proof.
+  intros W. unfold dec_decode.
+  destruct (base_decode bs) as [[b r0]| |] eqn:Eb; cbn [bind]; try discriminate.
+  destruct (Nat.ltb (length bs) (base_len b)) eqn:L; [discriminate|]. apply Nat.ltb_ge in L.
+  destruct (read_list info_len info_decode (N.to_nat (b_numinf b)) r0) as [[is r1]| |] eqn:Ei;
+    cbn [bind]; try discriminate.
+  destruct (read_list hop_len hop_decode (N.to_nat (b_numhops b)) r1) as [[hs r2]| |] eqn:Eh;
+    cbn [bind]; try discriminate.
+  intros H; injection H as <- <-.
+  destruct (base_decode_rest _ _ _ W Eb) as (Hr0 & Wr0 & Hlen & Emask & Wm).
+  destruct (base_decode_inv _ _ _ W Eb) as [_ Hb].
+  destruct (read_infos_inv _ _ _ _ Wr0 Ei) as (Li & Wi & Wr1 & Hl1 & Mi).
+  destruct (read_hops_inv _ _ _ _ Wr1 Eh) as (Lh & Wh & Wr2 & Hl2 & Mh).
+  assert (WD : wf_dec (mkDec b is hs)).
+  { split; [exact Wm | split; [exact Hb | split; [exact Li | split; [exact Lh | split; assumption]]]]. }
+  destruct (dec_encode_ok _ WD) as [E _]. cbn [dp_base dp_infos dp_hops] in E.
+  eexists. split; [exact E|]. split; [| split; [exact WD | split; [exact Wr2|]]].
+  - unfold mask_dec. rewrite Eb. rewrite <- Hr0. rewrite Mi, Mh.
+    rewrite <- Emask. rewrite firstn_app_exact by apply meta_encode_length.
+    rewrite <- !app_assoc. reflexivity.
+  - cbn [dp_base]. unfold base_len. lia.
+Qed.
+
+Lemma base_decode_length bs b r0 : base_decode bs = Ok (b, r0) -> length bs = (meta_len + length r0)%nat.
+Proof.
+  unfold base_decode. intros Eb.
+  destruct (meta_decode bs) as [[m r']| |] eqn:Em; cbn [bind] in Eb; try discriminate.
+  destruct (base_of_meta m); cbn [bind] in Eb; try discriminate.
+  injection Eb as <- <-. now apply meta_decode_length in Em.
+Qed.
+
+Lemma dec_no_panic bs : dec_decode bs <> Panic.
+Proof.
+  unfold dec_decode. pose proof (base_decode_no_panic bs).
+  destruct (base_decode bs) as [[b r0]| |] eqn:Eb; cbn [bind]; try congruence.
+  destruct (Nat.ltb (length bs) (base_len b)) eqn:L; [discriminate|]. apply Nat.ltb_ge in L.
+  pose proof (base_decode_length _ _ _ Eb) as Hlen. unfold base_len in L.
+  pose proof (read_infos_no_panic (N.to_nat (b_numinf b)) r0) as Pi.
+  destruct (read_list info_len info_decode (N.to_nat (b_numinf b)) r0) as [[is r1]| |] eqn:Ei;
+    cbn [bind]; try discriminate.
+  2:{ exfalso. apply Pi; [lia | reflexivity]. }
+  apply read_list_length in Ei.
+  pose proof (read_hops_no_panic (N.to_nat (b_numhops b)) r1) as Ph.
+  destruct (read_list hop_len hop_decode (N.to_nat (b_numhops b)) r1) as [[hs r2]| |] eqn:Eh;
+    cbn [bind]; try discriminate.
+  exfalso. apply Ph; [lia | reflexivity].
+Qed.
+
+Lemma dec_reject_short bs b r : base_decode bs = Ok (b, r) -> (length bs < base_len b)%nat ->
+  dec_decode bs = Err.
+Proof. intros E L. unfold dec_decode. rewrite E. cbn [bind]. now rewrite ltb_true. Qed.
+
+(** raw and decoded form accept the same byte strings *)
+Lemma raw_dec_accept_same bs : wf_bytes bs -> (is_ok (raw_decode bs) = is_ok (dec_decode bs)).
+Proof.
+  intros W. unfold raw_decode, dec_decode.
+  destruct (base_decode bs) as [[b r0]| |] eqn:Eb; cbn [bind]; try reflexivity.
+  destruct (Nat.ltb (length bs) (base_len b)) eqn:L; [reflexivity|]. apply Nat.ltb_ge in L.
+  pose proof (base_decode_length _ _ _ Eb) as Hlen. unfold base_len in L.
+  rewrite takeP_ok by (unfold base_len; lia). cbn [bind is_ok].
+  pose proof (read_infos_no_panic (N.to_nat (b_numinf b)) r0) as Pi.
+  pose proof (read_infos_not_err (N.to_nat (b_numinf b)) r0) as Qi.
+  destruct (read_list info_len info_decode (N.to_nat (b_numinf b)) r0) as [[is r1]| |] eqn:Ei;
+    cbn [bind].
+  2:{ exfalso. apply Qi; [lia | reflexivity]. }
+  2:{ exfalso. apply Pi; [lia | reflexivity]. }
+  apply read_list_length in Ei.
+  pose proof (read_hops_no_panic (N.to_nat (b_numhops b)) r1) as Ph.
+  pose proof (read_hops_not_err (N.to_nat (b_numhops b)) r1) as Qh.
+  destruct (read_list hop_len hop_decode (N.to_nat (b_numhops b)) r1) as [[hs r2]| |] eqn:Eh;
+    cbn [bind]; [reflexivity | |].
+  - exfalso. apply Qh; [lia | reflexivity].
+  - exfalso. apply Ph; [lia | reflexivity].
+Qed.
+
+(** ------------------------------------------------------------ one-hop path *)
+Lemma onehop_encode_length o : length (onehop_encode o) = onehop_len.
+Proof.
+  unfold onehop_encode. rewrite !app_length, info_encode_length, !hop_encode_length. reflexivity.
+Qed.
+
+Lemma onehop_dec_enc o rest : wf_onehop o -> onehop_decode (onehop_encode o ++ rest) = Ok (o, rest).
+Proof.
+  intros (Wi & W1 & W2). unfold onehop_decode.
+  rewrite ltb_false by (rewrite app_length, onehop_encode_length; lia).
+  unfold onehop_encode. rewrite <- !app_assoc.
+  rewrite takeP_app' by apply info_encode_length. cbn [bind].
+  rewrite <- (app_nil_r (info_encode _)), info_dec_enc by exact Wi. cbn [bind].
+  rewrite takeP_app' by apply hop_encode_length. cbn [bind].
+  rewrite <- (app_nil_r (hop_encode (oh_first o))), hop_dec_enc by exact W1. cbn [bind].
+  rewrite takeP_app' by apply hop_encode_length. cbn [bind].
+  rewrite <- (app_nil_r (hop_encode (oh_second o))), hop_dec_enc by exact W2. cbn [bind].
+  destruct o; reflexivity.
+Qed.
+
+Lemma onehop_enc_dec bs o rest : wf_bytes bs -> onehop_decode bs = Ok (o, rest) ->
+  onehop_encode o ++ rest = mask_onehop bs /\ wf_onehop o /\ wf_bytes rest /\
+  length bs = (onehop_len + length rest)%nat.
+Proof.
+  intros W. unfold onehop_decode. destruct (Nat.ltb (length bs) onehop_len); [discriminate|].
+  destruct (takeP info_len bs) as [[c0 r0]| |] eqn:E0; cbn [bind]; try discriminate.
+  pose proof (takeP_wf _ _ _ _ W E0) as [Wc0 Wr0]. apply takeP_inv in E0 as (-> & L0).
+  destruct (info_decode c0) as [[i ri]| |] eqn:Ei; cbn [bind]; try discriminate.
+  destruct (takeP hop_len r0) as [[c1 r1]| |] eqn:E1; cbn [bind]; try discriminate.
+  pose proof (takeP_wf _ _ _ _ Wr0 E1) as [Wc1 Wr1]. apply takeP_inv in E1 as (-> & L1).
+  destruct (hop_decode c1) as [[h1 rh1]| |] eqn:Eh1; cbn [bind]; try discriminate.
+  destruct (takeP hop_len r1) as [[c2 r2]| |] eqn:E2; cbn [bind]; try discriminate.
+  pose proof (takeP_wf _ _ _ _ Wr1 E2) as [Wc2 Wr2]. apply takeP_inv in E2 as (-> & L2).
+  destruct (hop_decode c2) as [[h2 rh2]| |] eqn:Eh2; cbn [bind]; try discriminate.
+  intros H; injection H as <- <-.
+  pose proof (info_decode_chunk _ _ _ Wc0 L0 Ei) as ->.
+  pose proof (hop_decode_chunk _ _ _ Wc1 L1 Eh1) as ->.
+  pose proof (hop_decode_chunk _ _ _ Wc2 L2 Eh2) as ->.
+  destruct (info_enc_dec _ _ _ Wc0 Ei) as (Mi & Wi & _).
+  destruct (hop_enc_dec _ _ _ Wc1 Eh1) as (M1 & W1 & _).
+  destruct (hop_enc_dec _ _ _ Wc2 Eh2) as (M2 & W2 & _).
+  rewrite app_nil_r in Mi, M1, M2.
+  split; [| split; [split; [exact Wi | split; [exact W1 | exact W2]] | split; [exact Wr2|]]].
+  - unfold onehop_encode, mask_onehop. cbn [mask_chunks oh_info oh_first oh_second].
+    rewrite firstn_app_exact by exact L0. rewrite skipn_app_exact by exact L0.
+    rewrite firstn_app_exact by exact L1. rewrite skipn_app_exact by exact L1.
+    rewrite firstn_app_exact by exact L2. rewrite skipn_app_exact by exact L2.
+    rewrite Mi, M1, M2, <- !app_assoc. reflexivity.
+  - rewrite !app_length, L0, L1, L2. reflexivity.
+Qed.
+
+Lemma onehop_no_panic bs : onehop_decode bs <> Panic.
+Proof.
+  unfold onehop_decode. destruct (Nat.ltb (length bs) onehop_len) eqn:L; [discriminate|].
+  apply Nat.ltb_ge in L. unfold onehop_len in L.
+  np_take ltac:(unfold info_len in *; lia).
+  pose proof (info_no_panic a). destruct (info_decode a) as [[i ri]| |]; cbn [bind]; try congruence.
+  np_take ltac:(unfold info_len, hop_len in *; lia).
+  pose proof (hop_no_panic a0). destruct (hop_decode a0) as [[h1 rh]| |]; cbn [bind]; try congruence.
+  np_take ltac:(unfold info_len, hop_len in *; lia).
+  pose proof (hop_no_panic a1). destruct (hop_decode a1) as [[h2 rh2]| |]; cbn [bind]; congruence.
+Qed.
+
+Lemma onehop_err_iff bs : onehop_decode bs = Err <-> (length bs < onehop_len)%nat.
+Proof.
+  split.
+  - unfold onehop_decode. destruct (Nat.ltb (length bs) onehop_len) eqn:L.
+    + intros _. now apply Nat.ltb_lt.
+    + apply Nat.ltb_ge in L. unfold onehop_len in L.
+      np_take ltac:(unfold info_len in *; lia).
+      pose proof (takeP_inv _ _ _ _ E) as [_ La].
+      pose proof (info_err_iff a) as Ia.
+      destruct (info_decode a) as [[i ri]| |]; cbn [bind]; try discriminate.
+      2:{ intros _. assert (length a < info_len)%nat by now apply Ia. lia. }
+      np_take ltac:(unfold info_len, hop_len in *; lia).
+      pose proof (takeP_inv _ _ _ _ E0) as [_ La0].
+      pose proof (hop_err_iff a0) as Ia0.
+      destruct (hop_decode a0) as [[h1 rh]| |]; cbn [bind]; try discriminate.
+      2:{ intros _. assert (length a0 < hop_len)%nat by now apply Ia0. lia. }
+      np_take ltac:(unfold info_len, hop_len in *; lia).
+      pose proof (takeP_inv _ _ _ _ E1) as [_ La1].
+      pose proof (hop_err_iff a1) as Ia1.
+      destruct (hop_decode a1) as [[h2 rh2]| |]; cbn [bind]; try discriminate.
+      intros _. assert (length a1 < hop_len)%nat by now apply Ia1. lia.
+  - intros H. unfold onehop_decode. now rewrite ltb_true.
+Qed.
+
+(** ------------------------------------------------------------ EPIC path *)
+Lemma epic_dec_enc e rest : wf_epic e ->
+  exists bs, epic_encode e = Ok bs /\
+    exists sp, raw_encode (ep_scion e) = Ok sp /\
+    epic_decode (bs ++ rest) =
+      Ok (mkEpic (ep_ts e) (ep_ctr e) (ep_phvf e) (ep_lhvf e) (mkRaw (rp_base (ep_scion e)) sp), rest).
+Proof.
+  intros (Ht & Hc & Lp & Wp & Ll & Wl & Wr).
+  destruct (raw_dec_enc (ep_scion e) rest Wr) as (sp & Es & Ds).
+  unfold epic_encode. rewrite Lp, Ll, Nat.eqb_refl. cbn [negb]. rewrite Es. cbn [bind].
+  eexists. split; [reflexivity|]. exists sp. split; [reflexivity|].
+  unfold epic_decode.
+  rewrite ltb_false by (rewrite !app_length, !be_length, Lp, Ll; unfold epic_meta_len, hvf_len; lia).
+  rewrite <- !app_assoc.
+  do 2 (rewrite wordP_be_small by lt_pow; cbn [bind]).
+  rewrite takeP_app' by exact Lp. cbn [bind].
+  rewrite takeP_app' by exact Ll. cbn [bind].
+  rewrite Ds. reflexivity.
+Qed.
+
+Lemma epic_enc_dec bs e rest : wf_bytes bs -> epic_decode bs = Ok (e, rest) ->
+  exists en, epic_encode e = Ok en /\ en ++ rest = mask_epic bs /\ wf_epic e /\ wf_bytes rest /\
+    length bs = (epic_meta_len + base_len (rp_base (ep_scion e)) + length rest)%nat.
+Proof.
+  intros W. unfold epic_decode. destruct (Nat.ltb (length bs) epic_meta_len); [discriminate|].
+  do 2 inv_word. do 2 inv_take.
+  destruct (raw_decode r0) as [[sp rest']| |] eqn:Er; cbn [bind]; try discriminate.
+  intros H; injection H as <- <-.
+  destruct (raw_enc_dec _ _ _ W3 Er) as (es & Ees & Mes & Wsp & Wrest & Lr).
+  unfold epic_encode. cbn [ep_ts ep_ctr ep_phvf ep_lhvf ep_scion].
+  rewrite Ha, Ha0, Nat.eqb_refl. cbn [negb]. rewrite Ees. cbn [bind].
+  eexists. split; [reflexivity|].
+  split; [| split; [| split; [exact Wrest|]]].
+  - unfold mask_epic.
+    replace (be 4 n ++ be 4 n0 ++ a ++ a0 ++ r0) with ((be 4 n ++ be 4 n0 ++ a ++ a0) ++ r0)
+      by (now rewrite <- !app_assoc).
+    assert (L16 : length (be 4 n ++ be 4 n0 ++ a ++ a0) = epic_meta_len)
+      by (rewrite !app_length, !be_length, Ha, Ha0; reflexivity).
+    rewrite firstn_app_exact by exact L16. rewrite skipn_app_exact by exact L16.
+    rewrite <- Mes, <- !app_assoc. reflexivity.
+  - unfold wf_epic. cbn [ep_ts ep_ctr ep_phvf ep_lhvf ep_scion]. pow256.
+    repeat (split; [first [assumption | lia]|]). exact Wsp.
+  - rewrite !app_length, !be_length, Ha, Ha0, Lr. unfold epic_meta_len, hvf_len. lia.
+Qed.
+
+Lemma epic_no_panic bs : epic_decode bs <> Panic.
+Proof.
+  unfold epic_decode. destruct (Nat.ltb (length bs) epic_meta_len) eqn:L; [discriminate|].
+  apply Nat.ltb_ge in L. unfold epic_meta_len in L.
+  do 2 (np_word lia). do 2 (np_take ltac:(unfold hvf_len in *; lia)).
+  pose proof (raw_no_panic r2). destruct (raw_decode r2) as [[sp rest]| |]; cbn [bind]; congruence.
+Qed.
+
+(** ------------------------------------------------------------ path dispatch *)
+Lemma path_no_panic pt bs : path_decode pt bs <> Panic.
+Proof.
+  unfold path_decode.
+  pose proof (epic_no_panic bs). pose proof (onehop_no_panic bs). pose proof (raw_no_panic bs).
+  destruct pt as [|[[|[]|]|[|[]|]|]]; try discriminate.
+  all: try (destruct (epic_decode bs) as [[e r]| |]; cbn [bind]; congruence).
+  all: try (destruct (onehop_decode bs) as [[e r]| |]; cbn [bind]; congruence).
+  all: try (destruct (raw_decode bs) as [[e r]| |]; cbn [bind]; congruence).
+  unfold empty_decode. destruct (Nat.eqb (length bs) 0); cbn [bind]; discriminate.
+Qed.
+
+Lemma path_type_unknown pt bs : 3 < pt -> path_decode pt bs = Err.
+Proof.
+  intros H. unfold path_decode. destruct pt as [|[[|[]|]|[|[]|]|]]; try reflexivity; lia.
+Qed.
+
+Lemma raw_dec_enc_canon p rest : wf_raw p ->
+  exists e, raw_encode p = Ok e /\ raw_decode (e ++ rest) = Ok (raw_canon p, rest) /\
+            length e = base_len (rp_base p) /\ raw_encode (raw_canon p) = Ok e.
+Proof.
+  intros W. destruct (raw_encode_ok p W) as [E L].
+  destruct (raw_dec_enc p rest W) as (e & E' & D). rewrite E in E'. injection E' as <-.
+  eexists. split; [exact E|]. split; [exact D|]. split; [exact L|].
+  unfold raw_encode, raw_canon. cbn [rp_raw rp_base].
+  pose proof (base_len_ge (rp_base p)).
+  rewrite ltb_false by lia.
+  rewrite skipn_app_exact by apply meta_encode_length. now rewrite fit_exact.
+Qed.
+
+Lemma path_dec_enc p : wf_path p -> (forall d, p <> PDecoded d) ->
+  exists e, path_encode p = Ok e /\ length e = path_len p /\
+            path_decode (path_type p) e = Ok (path_canon p, []) /\
+            path_encode (path_canon p) = Ok e.
+Proof.
+  intros W ND. destruct p as [|r|o|x|d]; cbn [wf_path path_encode path_len path_type path_canon] in *.
+  - exists []. repeat split; reflexivity.
+  - destruct (raw_dec_enc_canon r [] W) as (e & E & D & L & E2). rewrite app_nil_r in D.
+    exists e. unfold path_decode. rewrite D. cbn [bind]. auto.
+  - exists (onehop_encode o). pose proof (onehop_dec_enc o [] W) as D. rewrite app_nil_r in D.
+    unfold path_decode. rewrite D. cbn [bind]. pose proof (onehop_encode_length o). auto.
+  - destruct W as (Ht & Hc & Lp & Wp & Ll & Wl & Wr).
+    destruct (raw_dec_enc_canon (ep_scion x) [] Wr) as (sp & Es & Ds & Ls & Es2).
+    rewrite app_nil_r in Ds.
+    unfold epic_encode. cbn [ep_ts ep_ctr ep_phvf ep_lhvf ep_scion].
+    rewrite Lp, Ll, Nat.eqb_refl. cbn [negb]. rewrite Es, Es2. cbn [bind].
+    eexists. split; [reflexivity|]. split; [| split; [|reflexivity]].
+    + rewrite !app_length, !be_length, Lp, Ll, Ls. unfold epic_meta_len, hvf_len. lia.
+    + unfold path_decode, epic_decode.
+      rewrite ltb_false by (rewrite !app_length, !be_length, Lp, Ll; unfold epic_meta_len, hvf_len; lia).
+      do 2 (rewrite wordP_be_small by lt_pow; cbn [bind]).
+      rewrite takeP_app' by exact Lp. cbn [bind].
+      rewrite takeP_app' by exact Ll. cbn [bind].
+      rewrite Ds. reflexivity.
+  - exfalso. now apply (ND d).
+Qed.
+
+(** a fully decoded path serializes to bytes that decode (as Raw, the form SCION.DecodeFromBytes
+    uses) and decode back (ToDecoded) to the same fields *)
+Lemma path_dec_enc_decoded d : wf_dec d ->
+  exists e, path_encode (PDecoded d) = Ok e /\ length e = path_len (PDecoded d) /\
+            path_decode 1 e = Ok (PScion (mkRaw (dp_base d) e), []) /\
+            dec_decode e = Ok (d, []).
+Proof.
+  intros W. destruct (dec_encode_ok d W) as [E L]. destruct (dec_dec_enc d [] W) as (e & E' & D).
+  rewrite E in E'. injection E' as <-. rewrite app_nil_r in D.
+  cbn [path_encode path_len]. eexists. split; [exact E|]. split; [exact L|]. split; [|exact D].
+  destruct W as (Wm & Hb & Li & Lh & Wi & Wh).
+  unfold path_decode, raw_decode, base_decode.
+  rewrite meta_dec_enc by exact Wm. cbn [bind]. rewrite Hb. cbn [bind].
+  rewrite ltb_false by lia.
+  rewrite <- (app_nil_r (meta_encode _ ++ _)) at 1. rewrite takeP_app' by exact L. reflexivity.
+Qed.
+
+Lemma path_enc_dec pt bs p rest : wf_bytes bs -> path_decode pt bs = Ok (p, rest) ->
+  exists e, path_encode p = Ok e /\ e ++ rest = mask_path pt bs /\ wf_path p /\ wf_bytes rest /\
+            path_type p = pt /\ length bs = (path_len p + length rest)%nat /\
+            (forall d, p <> PDecoded d).
+Proof.
+  intros W.
+  assert (C : pt = 3 \/ pt = 2 \/ pt = 1 \/ pt = 0 \/ 3 < pt) by lia.
+  destruct C as [->|[->|[->|[->|C]]]]; [| | | |rewrite path_type_unknown by exact C; discriminate];
+    unfold path_decode.
+  - (* 3: EPIC *)
+    destruct (epic_decode bs) as [[e r]| |] eqn:E; cbn [bind]; try discriminate.
+    intros H; injection H as <- <-.
+    destruct (epic_enc_dec _ _ _ W E) as (en & Ee & M & We & Wr & L).
+    exists en. cbn [path_encode wf_path path_type path_len mask_path].
+    split; [exact Ee|]. split; [exact M|]. split; [exact We|]. split; [exact Wr|].
+    split; [reflexivity|]. split; [lia|]. discriminate.
+  - (* 2: one-hop *)
+    destruct (onehop_decode bs) as [[o r]| |] eqn:E; cbn [bind]; try discriminate.
+    intros H; injection H as <- <-.
+    destruct (onehop_enc_dec _ _ _ W E) as (M & Wo & Wr & L).
+    exists (onehop_encode o). cbn [path_encode wf_path path_type path_len mask_path].
+    split; [reflexivity|]. split; [exact M|]. split; [exact Wo|]. split; [exact Wr|].
+    split; [reflexivity|]. split; [exact L|]. discriminate.
+  - (* 1: SCION *)
+    destruct (raw_decode bs) as [[q r]| |] eqn:E; cbn [bind]; try discriminate.
+    intros H; injection H as <- <-.
+    destruct (raw_enc_dec _ _ _ W E) as (e & Ee & M & Wq & Wr & L).
+    exists e. cbn [path_encode wf_path path_type path_len mask_path].
+    split; [exact Ee|]. split; [exact M|]. split; [exact Wq|]. split; [exact Wr|].
+    split; [reflexivity|]. split; [exact L|]. discriminate.
+  - (* 0: empty *)
+    unfold empty_decode. destruct (Nat.eqb (length bs) 0) eqn:E; cbn [bind]; try discriminate.
+    intros H; injection H as <- <-. apply Nat.eqb_eq in E.
+    destruct bs; [|discriminate]. exists []. cbn. repeat split; try constructor; discriminate.
+Qed.
+
+(** a declared path length that exceeds the data is rejected *)
+Lemma path_reject_short pt bs p rest : path_decode pt bs = Ok (p, rest) -> wf_bytes bs ->
+  (path_len p <= length bs)%nat.
+Proof.
+  intros H W. destruct (path_enc_dec _ _ _ _ W H) as (e & _ & _ & _ & _ & _ & L & _). lia.
+Qed.
